@@ -6,13 +6,13 @@ prop, x, verdict = sys.argv[1], sys.argv[2], sys.argv[3]
 root = os.environ.get("SEED_ROOT", "/tmp/seed")
 src = "%s/%s/out/%s" % (root, prop, x)
 if root != "/tmp/seed":
-    x = {"a": "c", "b": "d"}[x]  # second-round changes are kept as <prop>-c / <prop>-d
+    x = ({"a": "e", "b": "f"} if root.endswith("seed3") else {"a": "c", "b": "d"})[x]  # later rounds are kept as <prop>-c/-d (round 2), -e/-f (round 3)
 dst = "/verif/seeded/%s-%s" % (prop, x)
 os.makedirs(dst, exist_ok=True)
 for f in ("patch.diff", "demo.py"):
     shutil.copy(os.path.join(src, f), os.path.join(dst, f))
 m = json.load(open(os.path.join(src, "meta.json")))
-log = "/tmp/seedlogs/suite%s-%s-%s.log" % ("2" if root != "/tmp/seed" else "", prop, sys.argv[2])
+log = "/tmp/seedlogs/suite%s-%s-%s.log" % (("3" if root.endswith("seed3") else "2") if root != "/tmp/seed" else "", prop, sys.argv[2])
 mine = []
 if os.path.exists(log):
     mine = [l.strip() for l in open(log) if l.startswith("[")]
